@@ -1,6 +1,8 @@
 import YaegiVerif.Common.Sexp
 import YaegiVerif.Model.Cfg
 import YaegiVerif.Model.CfgSlots
+import YaegiVerif.Model.Closures
+import YaegiVerif.Generated.C01
 /- Line-protocol front end for C01 (glue).
    run FUEL (funs BODY…) MAIN   → y=<normal|panic|fuel>:<v1,v2,…> g=<normal|panic|fuel>:<v1,v2,…>
                                     z=<normal|panic|fuel|stuck>:<v1,v2,…> n=<instructions> n2=<slot-level closures> nv=<variable slots>
@@ -107,5 +109,91 @@ def handle (args : List Sexp) : String :=
        s!"y={y} g={g} z={z} n={code.length} n2={code2.length} nv={nv}"
      | _, _, _ => "bad-op")
   | _ => "bad-op"
+
+/-! ## closure fragment (Spec/GoClosure.lean, Model/Closures.lean)
+   runc FUEL PROG → c=<normal|panic|stuck|fuel>:<v1,v2,…> s=<normal|panic|stuck|fuel>:<v1,v2,…> ws=<true|false> dom=<true|false> mech=<cdlbka bits>
+     c = yaegi's frame mechanism (`Clos.runM` with the mechanism the extractor recognised in the source),
+     s = Go's lexical-scoping semantics (`Clos.runS`), ws = the program is well scoped,
+     dom = no range bound is a bare variable (the domain of the theorem, F51)
+   XEXPR = (lit n) | (var x) | (bin op a b) | (neg a) | (cpl a)          -- x a NAME
+   XCOND = (cmp op a b) | (not a) | (land a b) | (lor a b)
+   PROG  = skip | brk | cont | (seq a b) | (set D x e) | (setfn D x (p…) body res) | (setcall D x f e…)
+         | (block s) | (ite c t e) | (while c body) | (forc x init c py pe body) | (rng x n body) | (print e) | (ret e)
+     D = 1 for `:=`, 0 for `=` -/
+namespace ClosFront
+open YaegiVerif.Clos
+
+partial def parseX : Sexp → Option (XExpr Nat)
+  | .list [.atom "lit", n] => n.int?.map (fun i => .lit (BitVec.ofInt 64 i))
+  | .list [.atom "var", i] => i.nat?.map .var
+  | .list [.atom "neg", a] => (parseX a).map .neg
+  | .list [.atom "cpl", a] => (parseX a).map .cpl
+  | .list [.atom "bin", .atom op, a, b] => do
+    let o ← match op with
+      | "add" => some BinOp.add | "sub" => some .sub | "mul" => some .mul | "and" => some .and
+      | "or" => some .or | "xor" => some .xor | "quo" => some .quo | "rem" => some .rem | _ => none
+    some (.bin o (← parseX a) (← parseX b))
+  | _ => none
+
+partial def parseC : Sexp → Option (XCond Nat)
+  | .list [.atom "cmp", .atom op, a, b] => do
+    let o ← match op with
+      | "eq" => some CmpOp.eq | "ne" => some .ne | "lt" => some .lt | "le" => some .le
+      | "gt" => some .gt | "ge" => some .ge | _ => none
+    some (.cmp o (← parseX a) (← parseX b))
+  | .list [.atom "not", a] => (parseC a).map .not
+  | .list [.atom "land", a, b] => do some (.land (← parseC a) (← parseC b))
+  | .list [.atom "lor", a, b] => do some (.lor (← parseC a) (← parseC b))
+  | _ => none
+
+def flag? : Sexp → Option Bool
+  | .atom "1" => some true
+  | .atom "0" => some false
+  | _ => none
+
+partial def parseS : Sexp → Option Clos.Stmt
+  | .atom "skip" => some .skip
+  | .atom "brk" => some .brk
+  | .atom "cont" => some .cont
+  | .list [.atom "seq", a, b] => do some (.seq (← parseS a) (← parseS b))
+  | .list [.atom "set", d, x, e] => do some (.set (← flag? d) (← x.nat?) (← parseX e))
+  | .list [.atom "setfn", d, x, .list ps, body, res] => do
+    some (.setFn (← flag? d) (← x.nat?) (← ps.mapM (·.nat?)) (← parseS body) (← parseX res))
+  | .list (.atom "setcall" :: d :: x :: f :: args) => do
+    some (.setCall (← flag? d) (← x.nat?) (← f.nat?) (← args.mapM parseX))
+  | .list [.atom "block", s] => do some (.block (← parseS s))
+  | .list [.atom "ite", c, t, e] => do some (.ite (← parseC c) (← parseS t) (← parseS e))
+  | .list [.atom "while", c, b] => do some (.while (← parseC c) (← parseS b))
+  | .list [.atom "forc", x, i, c, py, pe, b] => do
+    some (.forc (← x.nat?) (← parseX i) (← parseC c) (← py.nat?) (← parseX pe) (← parseS b))
+  | .list [.atom "rng", x, n, b] => do some (.rng (← x.nat?) (← parseX n) (← parseS b))
+  | .list [.atom "print", e] => do some (.print (← parseX e))
+  | .list [.atom "ret", e] => do some (.ret (← parseX e))
+  | _ => none
+
+def showEnd : Option Outcome → String
+  | none => "fuel:"
+  | some ⟨out, .normal⟩ => "normal:" ++ showOut out
+  | some ⟨out, .panic⟩ => "panic:" ++ showOut out
+  | some ⟨out, .stuck⟩ => "stuck:" ++ showOut out
+
+def bit (b : Bool) : String := if b then "1" else "0"
+
+def handle (args : List Sexp) : String :=
+  match args with
+  | [.atom "runc", fuel, prog] =>
+    (match fuel.nat?, parseS prog with
+     | some f, some p =>
+       let m := Mech.ofFacts Generated.C01.mechFacts
+       s!"c={showEnd (runM m f p)} s={showEnd (runS f p)} ws={p.wellScoped []} dom={p.inDom} mech={bit m.cloneFrame}{bit m.defineFresh}{bit m.loopFresh}{bit m.loopCopyBack}{bit m.keyFresh}{bit m.boundAlias}"
+     | _, _ => "bad-op")
+  | _ => "bad-op"
+end ClosFront
+
+/-- all commands of the C01 driver -/
+def handleAll (args : List Sexp) : String :=
+  match args with
+  | .atom "runc" :: _ => ClosFront.handle args
+  | _ => handle args
 
 end YaegiVerif.Driver.C01
